@@ -39,8 +39,8 @@ class FakeBleClient:
 
     async def get_characteristic(self, service_type, char_type, iid=None):
         for ch in self.acc.chars.values():
-            if ch.type.lower() == char_type.lower() and (iid is None or ch.iid == iid):
-                return Handle(ch)
+            if ch.type.lower() == char_type.lower() and (iid is None or ch.iid == iid or (ch.type == bleacc.CH_SVC_SIG and ch.svc_iid == iid)):
+                return Handle(ch)  # (the service-signature characteristic is addressed by the instance id of its service)
         from aiohomekit.controller.ble.bleak import BleakCharacteristicMissing
 
         raise BleakCharacteristicMissing(f"{char_type} not found")
